@@ -24,17 +24,26 @@
         signature; for a class it depends on the constructor only, not on attribute annotations.  `get_type_hints(cls)`
         answers for the ATTRIBUTES, `signature(cls)` for the PARAMETERS
                                                                        (`callable_params_by_own_annotation_needed`: seed C10g);
-    (f) `kw_only_dropped`, `typeddict_signature_spec`, `tuple_signature_spec`, and the exact failure domain
-        `typeddict_without_hints_recurses` / `get_type_hints_fails_only_there`.
+    (f) `kw_only_dropped`, `tuple_signature_spec`, and `typeddict_signature_spec` at full strength (one keyword-only parameter
+        per hint of the class itself, in order, required iff the key is in `__required_keys__`; no side condition)
+                                                                       (`typeddict_signature_spec_needed`: the code before 629e6a2 —
+                                                                        `b: NotRequired[int]`, `a: Required[int]` under total=False,
+                                                                        a key named `items`);
+        `get_type_hints_total`, `signature_never_recurses`, `typeddict_signature_total`, `typeddict_without_hints_empty` — the
+        call never fails, for either value of `exhaustive`      (`get_type_hints_total_needed`: the code before 87eadd9 — the
+                                                                        empty TypedDict, the one without a resolvable hint);
+    (g) `param_annotation_module`, `bind_caller_irrelevant`, `param_annotation_reference` — the type `bind` converts a parameter
+        to is a function of the callable's signature and of the namespace of the callable's OWN module; who binds is irrelevant
+                                                                       (`param_annotation_module_needed`: the code before f5b21b1 —
+                                                                        resolved in the caller's module, first caller memoised).
 
-  Behaviour of the unchanged tree the statements had to be shaped around (each reproduced on the real code by
-  harness/props/hints_corr.py and counted in the evidence):
-    * a TypedDict without a resolvable hint: `signature` / exhaustive `get_type_hints` never return (RecursionError);
-    * `typed_dict_signature` reads `__total__` only (`typeddict_signature_ignores_required_keys`) and takes
-      `getattr(cls, key)` as default, which exists for keys named like attributes of `dict`
-      (`typeddict_key_named_like_dict_attribute`);
-    * CPython 3.12 evaluates the flattened annotations of a TypedDict subclass with the DERIVED module as locals
-      (`typeddict_flattening_resolves_in_derived_module`).
+  History: the first version of this file (against /repo befc63c) had to state `typeddict_signature_spec` with the side conditions
+  "has a resolvable hint" and "no attribute of the class named like the key", by `__total__`; `get_type_hints` had the failure
+  domain `typeddict_without_hints_recurses`.  Running the real code at the excluded points showed three defects, repaired by
+  87eadd9, 629e6a2 and f5b21b1; the pre-repair functions are kept as mutants in Model/Hints.lean.
+
+  Behaviour that stays (CPython's, reproduced by harness/props/hints_corr.py and counted in the evidence): CPython 3.12 evaluates the
+  flattened annotations of a TypedDict subclass with the DERIVED module as locals (`typeddict_flattening_resolves_in_derived_module`).
 -/
 import TypelibModel.Model.Hints
 namespace Typelib.MemberHints
@@ -645,13 +654,11 @@ theorem signatureOf_notSentinel (env : Hints.Env) (o : Obj) (ps : List Param) (h
     cases hk : c.kind with
     | typedDict total req attrs =>
       simp only [signatureOf, hk] at h
-      split at h
-      · cases h
-      · cases h
-        simp only [typedDictSignature, List.all_map, List.all_eq_true]
-        intro p hp
-        have := baseHints_no_sentinel env (.cls c) p hp
-        simp [annNotSentinel, tdParam, this]
+      cases h
+      simp only [typedDictSignature, List.all_map, List.all_eq_true]
+      intro p hp
+      have := baseHints_no_sentinel env (.cls c) p hp
+      simp [annNotSentinel, tdParam, this]
     | tupleSub =>
       simp only [signatureOf, hk] at h
       cases h
@@ -714,21 +721,18 @@ theorem kw_only_dropped (env : Hints.Env) (o : Obj) (exh : Bool) (r : Dict Hint)
   · cases h
     exact baseHints_no_sentinel env o
 
-/-- (f) `typeddict_signature_spec`: a TypedDict with at least one resolvable hint gets one keyword-only parameter per hint,
-    in the order of the hints, annotated with the hint; a parameter is REQUIRED (no default) iff the class is total and has
-    no attribute of that name.  (`__required_keys__` is not consulted: `typeddict_signature_ignores_required_keys`.) -/
+/-- (f) `typeddict_signature_spec` — at full strength since /repo 629e6a2 + 87eadd9: EVERY TypedDict (also one without any
+    resolvable hint: then no parameter) gets one keyword-only parameter per hint of the class itself, in the order of the
+    hints, annotated with the hint; a parameter is REQUIRED (no default) iff the key is in `__required_keys__`, and a
+    non-required one has the default `...`.  Totality and attributes of the class named like a key play no part. -/
 theorem typeddict_signature_spec (env : Hints.Env) (c : ClassDesc) (total : Bool) (req attrs : List Str)
-    (hk : c.kind = .typedDict total req attrs) (hne : baseHints env (.cls c) ≠ []) :
+    (hk : c.kind = .typedDict total (some req) attrs) :
     ∃ ps, signatureOf env (.cls c) = .ok ps
       ∧ ps.map Param.name = keys (baseHints env (.cls c))
       ∧ ps.map Param.ann = (baseHints env (.cls c)).map (fun p => PAnn.obj p.2)
       ∧ (∀ p ∈ ps, p.kind = .kwOnly)
-      ∧ (∀ p ∈ ps, (p.dflt = .none ↔ (total = true ∧ p.name ∉ attrs))) := by
-  have hemp : (baseHints env (.cls c)).isEmpty = false := by
-    cases hb : baseHints env (.cls c) with
-    | nil => exact absurd hb hne
-    | cons _ _ => rfl
-  refine ⟨typedDictSignature total attrs (baseHints env (.cls c)), by simp [signatureOf, hk, hemp], ?_, ?_, ?_, ?_⟩
+      ∧ (∀ p ∈ ps, (p.dflt = .none ↔ p.name ∈ req) ∧ (p.dflt = .ellipsis ↔ p.name ∉ req)) := by
+  refine ⟨typedDictSignature total (some req) (baseHints env (.cls c)), by simp [signatureOf, hk], ?_, ?_, ?_, ?_⟩
   · simp [typedDictSignature, keys, tdParam, Function.comp_def]
   · simp [typedDictSignature, tdParam, Function.comp_def]
   · intro p hp
@@ -736,21 +740,20 @@ theorem typeddict_signature_spec (env : Hints.Env) (c : ClassDesc) (total : Bool
     rfl
   · intro p hp
     obtain ⟨q, _, rfl⟩ := List.mem_map.mp hp
-    simp only [tdParam]
-    by_cases ha : q.1 ∈ attrs
-    · simp [ha]
-    · cases total <;> simp [ha]
+    simp only [tdParam, requiredOf]
+    by_cases ha : q.1 ∈ req <;> simp [ha]
 
-/-- a TypedDict WITHOUT any resolvable hint (no keys, or a key whose annotation cannot be evaluated): `signature` and
-    the exhaustive `get_type_hints` call each other without end — the real code raises RecursionError. -/
-theorem typeddict_without_hints_recurses (env : Hints.Env) (c : ClassDesc) (total : Bool) (req attrs : List Str)
-    (hk : c.kind = .typedDict total req attrs) (he : baseHints env (.cls c) = []) :
-    signatureOf env (.cls c) = .error .recursion ∧ getTypeHints env (.cls c) true = .error .recursion
-      ∧ getTypeHints env (.cls c) false = .ok [] := by
-  have hs : signatureOf env (.cls c) = .error .recursion := by simp [signatureOf, hk, he]
-  refine ⟨hs, ?_, ?_⟩
-  · simp [getTypeHints, he, hintsFromSignature, hs]
-  · simp [getTypeHints, he]
+/-- a dict subclass that only has `__total__` (no `__required_keys__`): every key required iff total -/
+theorem typeddict_signature_without_required_keys (env : Hints.Env) (c : ClassDesc) (total : Bool) (attrs : List Str)
+    (hk : c.kind = .typedDict total none attrs) :
+    ∃ ps, signatureOf env (.cls c) = .ok ps ∧ ps.map Param.name = keys (baseHints env (.cls c))
+      ∧ ∀ p ∈ ps, (p.dflt = .none ↔ total = true) := by
+  refine ⟨typedDictSignature total none (baseHints env (.cls c)), by simp [signatureOf, hk], ?_, ?_⟩
+  · simp [typedDictSignature, keys, tdParam, Function.comp_def]
+  · intro p hp
+    obtain ⟨q, hq, rfl⟩ := List.mem_map.mp hp
+    have hm : q.1 ∈ keys (baseHints env (.cls c)) := List.mem_map.mpr ⟨q, hq, rfl⟩
+    cases total <;> simp [tdParam, requiredOf, hm]
 
 theorem realSignature_not_recursion (c : ClassDesc) : realSignature c ≠ .error .recursion := by
   simp only [realSignature]
@@ -758,34 +761,107 @@ theorem realSignature_not_recursion (c : ClassDesc) : realSignature c ≠ .error
   · simp
   · split <;> simp
 
-/-- … and that is the ONLY way `get_type_hints` fails. -/
-theorem get_type_hints_fails_only_there (env : Hints.Env) (o : Obj) (exh : Bool) (x : Fail)
-    (h : getTypeHints env o exh = .error x) :
-    x = .recursion ∧ exh = true ∧ baseHints env o = [] ∧ ∃ c, o = .cls c ∧ isTypedDict c.kind = true := by
-  simp only [getTypeHints] at h
-  split at h
-  · rename_i hc
-    simp only [Bool.and_eq_true, List.isEmpty_iff] at hc
-    simp only [hintsFromSignature] at h
-    split at h
-    · cases h
-    · rename_i hs
-      cases h
-      refine ⟨rfl, hc.2, hc.1, ?_⟩
-      cases o with
-      | cls c =>
-        refine ⟨c, rfl, ?_⟩
-        cases hk : c.kind with
-        | typedDict t r a => rfl
-        | tupleSub => simp [signatureOf, hk] at hs
-        | plain => simp only [signatureOf, hk] at hs; exact absurd hs (realSignature_not_recursion c)
-        | dataclass => simp only [signatureOf, hk] at hs; exact absurd hs (realSignature_not_recursion c)
-        | namedTuple => simp only [signatureOf, hk] at hs; exact absurd hs (realSignature_not_recursion c)
-      | func f => simp [signatureOf] at hs
-      | inst c call => simp only [signatureOf] at hs; split at hs <;> cases hs
-      | tupleAlias m a v => simp [signatureOf] at hs
-    · cases h
-  · cases h
+/-- `signature` never runs into the mutual recursion any more (it may still have no answer: ValueError / TypeError of
+    `inspect.signature`, which `_hints_from_signature` catches) -/
+theorem signature_never_recurses (env : Hints.Env) (o : Obj) : signatureOf env o ≠ .error .recursion := by
+  cases o with
+  | cls c =>
+    cases hk : c.kind with
+    | typedDict t r a => simp [signatureOf, hk]
+    | tupleSub => simp [signatureOf, hk]
+    | plain => simp only [signatureOf, hk]; exact realSignature_not_recursion c
+    | dataclass => simp only [signatureOf, hk]; exact realSignature_not_recursion c
+    | namedTuple => simp only [signatureOf, hk]; exact realSignature_not_recursion c
+  | func f => simp [signatureOf]
+  | inst c call => simp only [signatureOf]; split <;> simp
+  | tupleAlias m a v => simp [signatureOf]
+
+/-- the signature of a TypedDict always exists: the empty one for a class without a resolvable hint -/
+theorem typeddict_signature_total (env : Hints.Env) (c : ClassDesc) (hk : isTypedDict c.kind = true) :
+    ∃ ps, signatureOf env (.cls c) = .ok ps ∧ (baseHints env (.cls c) = [] → ps = []) := by
+  cases hkind : c.kind <;> simp [hkind, isTypedDict] at hk
+  rename_i t r a
+  refine ⟨typedDictSignature t r (baseHints env (.cls c)), by simp only [signatureOf, hkind], ?_⟩
+  intro he; simp [typedDictSignature, he]
+
+/-- `get_type_hints_total`: `get_type_hints(obj, exhaustive)` never fails, for either value of `exhaustive` and every object
+    (also an empty TypedDict, a TypedDict whose hints cannot be resolved, an object without a signature). -/
+theorem get_type_hints_total (env : Hints.Env) (o : Obj) (exh : Bool) : ∃ r, getTypeHints env o exh = .ok r := by
+  simp only [getTypeHints]
+  split
+  · simp only [hintsFromSignature]
+    split
+    · exact ⟨_, rfl⟩
+    · rename_i hs; exact absurd hs (signature_never_recurses env o)
+    · exact ⟨_, rfl⟩
+  · exact ⟨_, rfl⟩
+
+/-- … and for a TypedDict without a resolvable hint the answer is `{}` whatever `exhaustive` says. -/
+theorem typeddict_without_hints_empty (env : Hints.Env) (c : ClassDesc) (exh : Bool) (hk : isTypedDict c.kind = true)
+    (he : baseHints env (.cls c) = []) : getTypeHints env (.cls c) exh = .ok [] := by
+  obtain ⟨ps, hs, hps⟩ := typeddict_signature_total env c hk
+  cases exh
+  · simp [getTypeHints, he]
+  · simp [getTypeHints, he, hintsFromSignature, hs, hps he]
+
+/-! ### (g) the binder resolves a postponed annotation where the callable was defined -/
+
+theorem bindItems_congr (f g : PAnn → Except TErr (Option Hint)) : ∀ (d : Dict PAnn),
+    (∀ p ∈ d, f p.2 = g p.2) → bindItems f d = bindItems g d := by
+  intro d
+  induction d with
+  | nil => intro _; rfl
+  | cons p d ih =>
+    intro h
+    have h1 := h p (List.mem_cons_self)
+    have h2 := ih (fun q hq => h q (List.mem_cons_of_mem _ hq))
+    simp only [bindItems, h1, h2]
+
+/-- what a parameter is converted to, as a function of its annotation and of the module of the CALLABLE only -/
+def ownTarget (env : Hints.Env) (module : Str) : PAnn → Except TErr (Option Hint)
+  | .missing => .ok none
+  | .text s => match resolve [modDict env module, env.builtins] (Naming.stripQual module s) with
+    | .ok h => .ok (some h)
+    | .error e => .error e
+  | .obj h => match evalRef env h with
+    | .ok v => .ok (some v)
+    | .error e => .error e
+
+theorem bindTarget_bindAnn (env : Hints.Env) (caller module : Str) (a : PAnn) :
+    bindTarget env caller (bindAnn module a) = ownTarget env module a := by
+  cases a with
+  | missing => rfl
+  | text s => rfl
+  | obj h => rfl
+
+theorem bindItems_map (env : Hints.Env) (caller module : Str) : ∀ (ps : List Param),
+    bindItems (bindTarget env caller) (ps.map (bindParamAnn module)) = bindItems (ownTarget env module) (ps.map paramAnn) := by
+  intro ps
+  induction ps with
+  | nil => rfl
+  | cons p ps ih => simp only [List.map_cons, bindItems, bindParamAnn, paramAnn, bindTarget_bindAnn, ih]
+
+/-- (g) `param_annotation_module`: the type `bind` converts each parameter to is determined by the signature of the callable
+    and the namespace of the callable's OWN module — a string annotation `s` is looked up (after `refs.forwardref` removed a
+    qualifier naming that module) in `sys.modules[obj.__module__]`, then builtins; the module binding it (`caller`) is irrelevant. -/
+theorem param_annotation_module (env : Hints.Env) (caller : Str) (o : Obj) (ps : List Param)
+    (hs : signatureOf env o = .ok ps) :
+    bindTargets env caller o = bindItems (ownTarget env (objModule o)) (ps.map paramAnn)
+      ∧ bindAnnotations env o = .ok (ps.map (bindParamAnn (objModule o))) := by
+  simp only [bindTargets, bindAnnotations, hs, bindItems_map, and_self]
+
+theorem bind_caller_irrelevant (env : Hints.Env) (c1 c2 : Str) (o : Obj) :
+    bindTargets env c1 o = bindTargets env c2 o := by
+  cases hs : signatureOf env o with
+  | ok ps => rw [(param_annotation_module env c1 o ps hs).1, (param_annotation_module env c2 o ps hs).1]
+  | error e => simp [bindTargets, bindAnnotations, hs]
+
+/-- a string annotation of a parameter: the reference the unmarshaller is asked for carries the callable's module -/
+theorem param_annotation_reference (env : Hints.Env) (o : Obj) (ps : List Param) (p : Param) (s : Str)
+    (hs : signatureOf env o = .ok ps) (hp : p ∈ ps) (ha : p.ann = .text s) :
+    ∃ d, bindAnnotations env o = .ok d ∧ (p.name, PAnn.obj (.fwd (Naming.stripQual (objModule o) s) (objModule o))) ∈ d := by
+  refine ⟨_, (param_annotation_module env [] o ps hs).2, ?_⟩
+  exact List.mem_map.mpr ⟨p, hp, by simp [bindParamAnn, bindAnn, ha, Naming.forwardrefOfText]⟩
 
 theorem tupleParams_spec : ∀ (hs : List Hint) (i j : Nat),
     (tupleParams i hs)[j]? = hs[j]?.map (fun h => { name := argName (i + j), kind := .posOnly, ann := .obj h, dflt := .none }) := by
@@ -880,7 +956,7 @@ theorem hints_mro_modules_needed :
     which `ForwardRef._evaluate` looks up in the locals (the module of the class being walked, `mb`) first: the inherited key
     gets the `Money` of the derived module.  `declaring` is then the derived class, so `hints_mro_modules` does not speak about it. -/
 def TB : ClassDesc :=
-  { kind := .typedDict true [nM, nExtra] [],
+  { kind := .typedDict true (some [nM, nExtra]) [],
     mro := [{ id := 3, module := mb, anns := [(nM, .ref sMoney ma), (nExtra, .ref sMoney mb)] }] }
 
 theorem typeddict_flattening_resolves_in_derived_module :
@@ -971,31 +1047,89 @@ example : getTypeHints env F true = .ok [(nAttr, .ty 12)] := by decide
 example : paramAnnotations env F = .ok [(nAttr, .obj (.ty 11)), (['z'], .missing)] := by decide
 example : paramAnnotationsC10g env F ≠ paramAnnotations env F := by decide
 
-/-- `class TN(TypedDict): a: int; b: NotRequired[int]` (total, required keys = {a}), `class TI(TypedDict): items: int; x: int` -/
+/-- `class TN(TypedDict): a: int; b: NotRequired[int]` (total, required keys = {a}); `class TP(TypedDict, total=False): a: Required[int];
+    b: int` (required keys = {a}); `class TI(TypedDict): items: int; x: int` (a key named like a method of `dict`) -/
 def TN : ClassDesc :=
-  { kind := .typedDict true [nA] [], mro := [{ id := 11, module := ma, anns := [(nA, .obj (.ty 10)), (nB, .obj (.ty 10))] }] }
+  { kind := .typedDict true (some [nA]) [], mro := [{ id := 11, module := ma, anns := [(nA, .obj (.ty 10)), (nB, .obj (.ty 10))] }] }
+def TP : ClassDesc :=
+  { kind := .typedDict false (some [nA]) [], mro := [{ id := 15, module := ma, anns := [(nA, .obj (.ty 10)), (nB, .obj (.ty 10))] }] }
 def TI : ClassDesc :=
-  { kind := .typedDict true [nItems, nX] [nItems],
+  { kind := .typedDict true (some [nItems, nX]) [nItems],
     mro := [{ id := 12, module := ma, anns := [(nItems, .obj (.ty 10)), (nX, .obj (.ty 10))] }] }
 
-example : wf (.cls TN) = true := by decide
+example : wf (.cls TN) = true ∧ wf (.cls TP) = true ∧ wf (.cls TI) = true := by decide
 
-/-- behaviour of the unchanged tree: the signature of a total TypedDict calls the `NotRequired` key `b` required … -/
-theorem typeddict_signature_ignores_required_keys :
-    signatureOf env (.cls TN) = .ok [{ name := nA, kind := .kwOnly, ann := .obj (.ty 10) }, { name := nB, kind := .kwOnly, ann := .obj (.ty 10) }] := by
-  decide
+/-- required by the key's own declaration, under both totalities; no attribute of `dict` as a default -/
+example : signatureOf env (.cls TN) = .ok [{ name := nA, kind := .kwOnly, ann := .obj (.ty 10) },
+                                            { name := nB, kind := .kwOnly, ann := .obj (.ty 10), dflt := .ellipsis }] := by decide
+example : signatureOf env (.cls TP) = .ok [{ name := nA, kind := .kwOnly, ann := .obj (.ty 10) },
+                                            { name := nB, kind := .kwOnly, ann := .obj (.ty 10), dflt := .ellipsis }] := by decide
+example : signatureOf env (.cls TI) = .ok [{ name := nItems, kind := .kwOnly, ann := .obj (.ty 10) },
+                                            { name := nX, kind := .kwOnly, ann := .obj (.ty 10) }] := by decide
 
-/-- … and a key named like an attribute of `dict` (`items`) gets that attribute as its default (it is a required key). -/
-theorem typeddict_key_named_like_dict_attribute :
-    signatureOf env (.cls TI) = .ok [{ name := nItems, kind := .kwOnly, ann := .obj (.ty 10), dflt := .value },
-                                     { name := nX, kind := .kwOnly, ann := .obj (.ty 10) }] := by decide
+/-- `typeddict_signature_spec_needed` (the code before 629e6a2): `__total__` alone calls the `NotRequired` key `b` required and the
+    `Required` key `a` of a `total=False` class optional; a key named `items` gets the method `dict.items` as its default —
+    each against the clause "required iff in `__required_keys__`" of `typeddict_signature_spec`. -/
+theorem typeddict_signature_spec_needed :
+    signatureOfPre629e6a2 env (.cls TN) = .ok [{ name := nA, kind := .kwOnly, ann := .obj (.ty 10) },
+                                                { name := nB, kind := .kwOnly, ann := .obj (.ty 10) }]
+      ∧ signatureOfPre629e6a2 env (.cls TP) = .ok [{ name := nA, kind := .kwOnly, ann := .obj (.ty 10), dflt := .ellipsis },
+                                                    { name := nB, kind := .kwOnly, ann := .obj (.ty 10), dflt := .ellipsis }]
+      ∧ signatureOfPre629e6a2 env (.cls TI) = .ok [{ name := nItems, kind := .kwOnly, ann := .obj (.ty 10), dflt := .value },
+                                                    { name := nX, kind := .kwOnly, ann := .obj (.ty 10) }]
+      ∧ signatureOfPre629e6a2 env (.cls TN) ≠ signatureOf env (.cls TN)
+      ∧ signatureOfPre629e6a2 env (.cls TP) ≠ signatureOf env (.cls TP)
+      ∧ signatureOfPre629e6a2 env (.cls TI) ≠ signatureOf env (.cls TI) := by decide
 
 /-- `class E(TypedDict): pass`, and a TypedDict whose only key cannot be evaluated -/
-def E : ClassDesc := { kind := .typedDict true [] [], mro := [{ id := 13, module := ma }] }
-def TBad : ClassDesc := { kind := .typedDict true [nA] [], mro := [{ id := 14, module := ma, anns := [(nA, .ref sMissing ma)] }] }
+def E : ClassDesc := { kind := .typedDict true (some []) [], mro := [{ id := 13, module := ma }] }
+def TBad : ClassDesc := { kind := .typedDict true (some [nA]) [], mro := [{ id := 14, module := ma, anns := [(nA, .ref sMissing ma)] }] }
 
 example : wf (.cls E) = true ∧ wf (.cls TBad) = true := by decide
-example : signatureOf env (.cls E) = .error .recursion ∧ getTypeHints env (.cls TBad) true = .error .recursion := by decide
+example : signatureOf env (.cls E) = .ok [] ∧ getTypeHints env (.cls E) true = .ok [] ∧ getTypeHints env (.cls TBad) true = .ok []
+    ∧ signatureOf env (.cls TBad) = .ok [] := by decide
+
+/-- `get_type_hints_total_needed` (the code before 87eadd9): for the empty TypedDict and for the one without a resolvable hint
+    `signature` and the exhaustive `get_type_hints` never return (RecursionError) — `get_type_hints_total` /
+    `signature_never_recurses` fail for that implementation. -/
+theorem get_type_hints_total_needed :
+    signatureOfPre87eadd9 env (.cls E) = .error .recursion
+      ∧ getTypeHintsPre87eadd9 env (.cls E) true = .error .recursion
+      ∧ getTypeHintsPre87eadd9 env (.cls TBad) true = .error .recursion
+      ∧ getTypeHintsPre87eadd9 env (.cls TBad) false = .ok [] := by decide
+
+/-- a class with `__total__` but without `__required_keys__` (`class X(dict): __total__ = False; a: int`) -/
+example : signatureOf env (.cls { kind := .typedDict false none [], mro := [{ id := 16, module := ma, anns := [(nA, .obj (.ty 10))] }] })
+    = .ok [{ name := nA, kind := .kwOnly, ann := .obj (.ty 10), dflt := .ellipsis }] := by decide
+
+/-- a function of `ma` with postponed annotations `def g(m: Money, q: ma.Money, n: int, z=1)`: the binder converts `m` and `q`
+    to the `Money` of `ma` (the qualifier `ma.` is removed by `refs.forwardref`), whoever binds it -/
+def g : FuncDesc :=
+  { module := ma, anns := [(nM, .name sMoney)],
+    params := [{ name := nM, ann := .text sMoney }, { name := ['q'], ann := .text (ma ++ ['.'] ++ sMoney) },
+               { name := ['n'], ann := .text sInt }, { name := ['z'], dflt := .value }] }
+
+example : wf (.func g) = true := by decide
+example : bindAnnotations env (.func g) = .ok [(nM, .obj (.fwd sMoney ma)), (['q'], .obj (.fwd sMoney ma)), (['n'], .obj (.fwd sInt ma)),
+                                                (['z'], .missing)] := by decide
+example : bindTargets env mb (.func g) = .ok [(nM, some (.ty 1)), (['q'], some (.ty 1)), (['n'], some (.ty 10)), (['z'], none)] := by decide
+example : bindTargets env ['_', '_', 'm', 'a', 'i', 'n', '_', '_'] (.func g) = bindTargets env mb (.func g) := by decide
+
+/-- `def g2(m: Money)` in `ma`, postponed -/
+def g2 : FuncDesc := { module := ma, anns := [(nM, .name sMoney)], params := [{ name := nM, ann := .text sMoney }] }
+
+/-- `param_annotation_module_needed` (the code before f5b21b1): the bare string reaches `unmarshaller(..)`, which resolves it in the
+    module of the caller — bound from `mb` the parameter is converted to the OTHER `Money`, bound from a module that does not bind the
+    name the binding fails with NameError; and since `_get_binding` is memoised per callable, whoever binds first decides for everybody. -/
+theorem param_annotation_module_needed :
+    bindTargetsPreF5b21b1 env mb (.func g2) = .ok [(nM, some (.ty 2))]
+      ∧ bindTargetsPreF5b21b1 env ['_', '_', 'm', 'a', 'i', 'n', '_', '_'] (.func g2) = .error (.eval .nameError)
+      ∧ bindTargets env mb (.func g2) = .ok [(nM, some (.ty 1))]
+      ∧ runSeq (cachedStep (fun (p : Str × Obj) => bindTargetsPreF5b21b1 env p.1 p.2) (fun _ => 0)) [] [(mb, .func g2), (ma, .func g2)]
+          = [.ok [(nM, some (.ty 2))], .ok [(nM, some (.ty 2))]]
+      ∧ runSeq (cachedStep (fun (p : Str × Obj) => bindTargetsPreF5b21b1 env p.1 p.2) (fun _ => 0)) [] [(ma, .func g2), (mb, .func g2)]
+          = [.ok [(nM, some (.ty 1))], .ok [(nM, some (.ty 1))]] :=
+  ⟨by decide, by decide, by decide, by decide, by decide⟩
 
 /-- `tuple[int, str]`, `tuple[int, ...]`, `tuple` -/
 example : signatureOf env (.tupleAlias ['b'] [.ty 10, .ty 11] false)
